@@ -432,16 +432,17 @@ def run(tier, seed):
                'budget_s': 40 if tier == 'quick' else 150} for c in chains]
     # the pending delay may be a time-of-day wait: it must survive the switches untouched
     items += [{'chain': c, 'timeat': True, 'timeout_ms': 10000, 'max_paths': 3000, 'budget_s': 40} for c in chains if len(c) <= 3 and 'rgb' not in c[1:-1]]
-    # the other command kinds (zone, group, location, all, and-list, matrix cell): single switches (quick), chains of two (thorough)
-    for tail in TAILS:
-        if tail != 'light':
-            items += [{'chain': c, 'tail': tail, 'timeout_ms': 10000, 'max_paths': 2000, 'budget_s': 30 if tier == 'quick' else 120}
-                      for c in chains if len(c) <= (2 if tier == 'quick' else 3)]
     # the chain's run is the second run of its Machine; the first one ended in another unit mode
     for before in ('units raw hue 1000 time 5 set "A"', 'hue 20 units rgb red 50 duration 2 set all'):
         items += [{'chain': c, 'before': before, 'timeout_ms': 10000, 'max_paths': 2000, 'budget_s': 30 if tier == 'quick' else 120}
                   for c in chains if c[0] == 'logical' and len(c) <= 2]
     items += [{'chain': (a, b), 'loop': True, 'timeout_ms': 10000, 'max_paths': 2000, 'budget_s': 30 if tier == 'quick' else 120} for a in MODES for b in MODES if a != b]
+    # the other command kinds (zone, group, location, all, and-list, matrix cell): single switches (quick), chains of two (thorough)
+    # (chain by chain, so that a budget cut on a busy machine loses the last chains of every kind rather than whole kinds)
+    for c in chains:
+        if len(c) <= (2 if tier == 'quick' else 3):
+            items += [{'chain': c, 'tail': tail, 'timeout_ms': 10000, 'max_paths': 2000, 'budget_s': 30 if tier == 'quick' else 120}
+                      for tail in TAILS if tail != 'light']
     results, skipped = report.run_pool(dispatch, items, budget_s=common.tier_budget(tier, 80, 1000))
     return report.finish(
         PROP, tier, seed, 'exploration', results, skipped,
